@@ -6,6 +6,7 @@ CONSTANTS
   Calls <- CallsQuick
   MaxCalls = 4
   CheckUnderLock = TRUE
-  Forced = FALSE
-INVARIANTS LTypeOK LockOK RunningHeld AgreedOnly OncePerHeight
+  GateSave = TRUE
+  Modes = {"free", "forced"}
+INVARIANTS LTypeOK LockOK RunningHeld AgreedOnly OncePerHeight EmitSched
 CHECK_DEADLOCK FALSE
